@@ -48,26 +48,26 @@ package eds
 //@   ensures err == nil ==> isExtOf(a, result0) && len(result0) != 0
 
 //@ func (*proofsCache).getAxisFromCache
-//@   property C05
+//@   property C05 C09
 //@   requires cacheOK(c) && (axisType == 0 || axisType == 1)
 //@   ensures result1 ==> entryOK(c.inner, int(axisType), axisIdx, result0)
 //@   ensures !result1 ==> result0.proofs == nil && len(result0.shares) == 0
 
 //@ func (*proofsCache).storeAxisInCache
-//@   property C05
+//@   property C05 C09
 //@   requires cacheOK(c) && (axisType == 0 || axisType == 1) && entryOK(c.inner, int(axisType), axisIdx, axis)
 //@   modifies c.axisCache[axisType]
 //@   ensures cacheOK(c)
 
 //@ func (*proofsCache).AxisHalf
-//@   property C05
+//@   property C05 C09
 //@   requires cacheOK(c) && (axisType == 0 || axisType == 1)
 //@   modifies c.axisCache[axisType]
 //@   ensures cacheOK(c)
 //@   ensures err == nil ==> isHalfOf(c.inner, int(axisType), axisIdx, result0)
 
 //@ func (*proofsCache).axisShares
-//@   property C05
+//@   property C05 C09
 //@   requires cacheOK(c) && (axisType == 0 || axisType == 1)
 //@   modifies c.axisCache[axisType]
 //@   ensures cacheOK(c)
@@ -75,13 +75,13 @@ package eds
 
 // Size only touches the cached size; the wrapped accessor and the axis cache stay as they are.
 //@ func (*proofsCache).Size
-//@   property C05
+//@   property C05 C09
 //@   requires c != nil
 //@   modifies c
 //@   ensures c.inner == old(c.inner) && c.axisCache == old(c.axisCache) && c.disableCache == old(c.disableCache)
 
 //@ func (*proofsCache).axisWithProofs
-//@   property C05
+//@   property C05 C09
 //@   requires cacheOK(c) && (axisType == 0 || axisType == 1)
 //@   modifies c
 //@   modifies c.axisCache[axisType]
@@ -90,7 +90,7 @@ package eds
 
 // The sampled share is cell idx.Col of the extension of row idx.Row's half of the wrapped accessor.
 //@ func (*proofsCache).Sample
-//@   property C05
+//@   property C05 C09
 //@   requires cacheOK(c)
 //@   modifies c
 //@   modifies c.axisCache[0]
